@@ -272,4 +272,4 @@ PROP = Prop(
                  "outnumber the scored ones by more than 2^53"],
 )
 
-RULE_EXTRA = ('score containers as in C02 (incl. uint8/uint16/bool and long double); integral targets written as Python ints and as an integer array; one target array object re-used across all calls of a case, expectations taken from the pristine target list.')
+RULE_EXTRA = ('score containers as in C02 (incl. uint8/uint16/bool and long double); integral targets written as Python ints and as an integer array; one target array object re-used across all calls of a case, expectations taken from the pristine target list. Clause wide_types: int64 scores at both ends of the int64 range and beyond 2^53, uint64 beyond 2^63, long doubles 2^-60 apart (oracle: the rate the library reports at the returned threshold is the extreme).')
